@@ -11,6 +11,7 @@ import (
 	"github.com/TimothyStiles/poly"
 	"github.com/TimothyStiles/poly/io/genbank"
 	"pgregory.net/rapid"
+	"verifharness/internal/gbk"
 	"verifharness/internal/insdc"
 	"verifharness/internal/ref"
 	"verifharness/internal/vk"
@@ -270,6 +271,23 @@ func check(c Case) error {
 	}
 	if !insdc.SameSegments(insdc.StructureSegments(parsed), n.Segments()) {
 		return vk.Errf("location %q parsed from text: stranded spans and partial ends in reading order %+v, written %+v", text, insdc.StructureSegments(parsed), n.Segments())
+	}
+	// the parsed location belongs to the caller: written into (coordinates shifted, operands swapped, one appended),
+	// the same text parses again to what it says
+	gbk.VandaliseLocation(&parsed)
+	func() {
+		defer func() {
+			if r := recover(); r != nil {
+				parsed = poly.Location{Start: -1}
+			}
+		}()
+		parsed = genbank.VerifParseLocation(text)
+	}()
+	if parsed.Start == -1 {
+		return vk.Errf("parsing the location %q a second time panics", text)
+	}
+	if again, err := featureSequenceOnce(parent, parsed); err != nil || again != want || !insdc.SameSegments(insdc.StructureSegments(parsed), n.Segments()) {
+		return vk.Errf("location %q parsed a second time, after the caller had written into the first result: feature sequence %q (err %v), spans %+v; INSDC reading %q, spans %+v", text, again, err, insdc.StructureSegments(parsed), want, n.Segments())
 	}
 	// (a') the same text inside a record (linear, and circular as plasmid files are), through the public parser
 	if c.InRecord {
